@@ -211,4 +211,12 @@ example :
 /-- the hypotheses of `C11_isolation`/`C11_progress` are satisfiable -/
 example : ([(10, 2), (20, 1)].map (·.1)).Nodup := by decide
 
+/-- **the shape of the temporary file name** (regenerated from function_compiler.cpp): the model's naming `(pid, counter) ↦ name` is
+injective only if the decimal process id and the decimal counter are separated by a non-digit text in EVERY statement that builds
+a name.  Without the separator the names of (pid 2, counter 10) and (pid 21, counter 0) coincide - second statement. -/
+theorem C11_name_format :
+    Gen.FuncCompile.nameUsesPid = true ∧ Gen.FuncCompile.nameSeparatesPidAndCounter = true ∧
+    (toString 2 ++ toString 10 = toString 21 ++ toString 0) ∧ (toString 2 ++ "_" ++ toString 10 ≠ toString 21 ++ "_" ++ toString 0) := by
+  decide
+
 end Sympler.FuncCompile
